@@ -22,6 +22,8 @@ pub struct StallWorld {
     pub origin: u16,
     /// while set, the UDP-over-CONNECT upstream stops reading the connections it accepts (after answering 200)
     pub upstream_stalls: Arc<std::sync::atomic::AtomicBool>,
+    /// while set, the upstream does not even answer the CONNECT of the connections it accepts
+    pub upstream_mute: Arc<std::sync::atomic::AtomicBool>,
 }
 
 pub async fn setup() -> StallWorld {
@@ -51,15 +53,21 @@ pub async fn setup() -> StallWorld {
     // an upstream proxy for UDP over CONNECT (inline channel): answers 200 + Session-Id, then echoes the frame bytes; while
     // `upstream_stalls` is set, a connection it accepts gets the 200 and is then never read again
     let upstream_stalls = Arc::new(std::sync::atomic::AtomicBool::new(false));
+    let upstream_mute = Arc::new(std::sync::atomic::AtomicBool::new(false));
     let ul = TcpListener::bind("127.0.0.1:0").await.unwrap();
     let uport = ul.local_addr().unwrap().port();
     {
         let flag = upstream_stalls.clone();
+        let mute = upstream_mute.clone();
         tokio::spawn(async move {
             let mut parked = vec![];
             loop {
                 if let Ok((mut s, _)) = ul.accept().await {
                     let stall = flag.load(std::sync::atomic::Ordering::SeqCst);
+                    if mute.load(std::sync::atomic::Ordering::SeqCst) {
+                        parked.push(s);
+                        continue;
+                    }
                     let mut head = vec![];
                     let mut b = [0u8; 1];
                     while !head.ends_with(b"\r\n\r\n") {
@@ -100,7 +108,7 @@ pub async fn setup() -> StallWorld {
     let quic = start_listener_udp(&w, &format!("name: quic\ntype: quic\n{}", tls)).await;
     let rudp = start_listener_udp(&w, "name: rudp\ntype: reverse\ntarget: 127.0.0.1:9\nprotocol: udp").await;
     tokio::time::sleep(std::time::Duration::from_millis(100)).await;
-    StallWorld { w, http, https, socks, sockss, quic, rudp, origin, upstream_stalls }
+    StallWorld { w, http, https, socks, sockss, quic, rudp, origin, upstream_stalls, upstream_mute }
 }
 
 /// CONNECT / SOCKS5 to the echo origin over an established byte stream, "ping" must come back
@@ -194,6 +202,7 @@ pub struct Held {
     quic: Vec<(quinn::Endpoint, Option<quinn::Connection>, Option<(quinn::SendStream, quinn::RecvStream)>)>,
     tasks: Vec<tokio::task::JoinHandle<()>>,
     udp: Vec<UdpSocket>,
+    std_udp: Vec<std::net::UdpSocket>,
 }
 
 async fn stall_one(sw: &StallWorld, stage: &str, held: &mut Held) {
@@ -308,6 +317,32 @@ async fn stall_one(sw: &StallWorld, stage: &str, held: &mut Held) {
                 held.udp.push(u);
             }
         }
+        "rudp-burst-while-upstream-dials" => {
+            // one UDP client sends a burst before its session exists and while the session's upstream does not answer the
+            // CONNECT: every datagram of the burst is taken by the listener's own loop
+            sw.upstream_mute.store(true, std::sync::atomic::Ordering::SeqCst);
+            // (the listener is kept busy creating sessions for 60 other sources meanwhile, so that the burst is already in
+            // the listening socket's queue when the burst's own session is created)
+            let mut others = vec![];
+            for _ in 0..60 {
+                if let Ok(o) = std::net::UdpSocket::bind("127.0.0.1:0") {
+                    others.push(o);
+                }
+            }
+            if let Ok(u) = std::net::UdpSocket::bind("127.0.0.1:0") {
+                let to = std::net::SocketAddr::from(([127, 0, 0, 1], sw.rudp));
+                for o in others.iter() {
+                    let _ = o.send_to(b"o", to);
+                }
+                for _ in 0..180 {
+                    let _ = u.send_to(b"x", to);
+                }
+                tokio::time::sleep(std::time::Duration::from_millis(300)).await;
+                held.std_udp.push(u);
+                held.std_udp.extend(others);
+            }
+            sw.upstream_mute.store(false, std::sync::atomic::Ordering::SeqCst);
+        }
         other => panic!("unknown stall stage {}", other),
     }
 }
@@ -332,6 +367,7 @@ pub const STAGES: &[&str] = &[
     "quic-stream-partial-request",
     "quic-initial-only",
     "rudp-flood-into-stalled-upstream",
+    "rudp-burst-while-upstream-dials",
 ];
 
 /// every stage: three stalled clients of that kind (they stay for the rest of the run), then a fresh client per listener
